@@ -315,8 +315,9 @@ func GenHistory(r *Rng, cfg GenCfg) []Op {
 									ops = append(ops, Op{K: "set", Name: n, Key: g.key(), Val: genVal(r, false), Prio: g.prio()})
 								}
 							}
+							ops = append(ops, Op{K: "tot", Name: n})
 							if r.Chance(1, 2) {
-								ops = append(ops, Op{K: "tot", Name: n}, Op{K: "flush"}, Op{K: "reopen"}, Op{K: "tot", Name: n})
+								ops = append(ops, Op{K: "flush"}, Op{K: "reopen"}, Op{K: "tot", Name: n})
 							}
 						}
 					}
